@@ -294,6 +294,8 @@ CHECKS["C03"] = {
     "harnesses": [
         H("c11.VH_relay", {"PEERS": 1, "BL": 3, "DL": 3, "UPL": 3}, {"PEERS": 1, "BL": 4, "DL": 4, "UPL": 4}, variant="one-peer", covers=["relayed"], weight=2, **_envonly),
         H("c11.VH_relay", {"PEERS": 2, "BL": 2, "DL": 2, "UPL": 2}, {"PEERS": 2, "BL": 3, "DL": 3, "UPL": 3}, variant="two-peers", covers=["relayed"], weight=5, **_envonly),
+        # the relay starts where matching left the connection: freeze/unfreeze restore the read position from any state
+        H("c01.VH_match_step", {}, {}, covers=["matcher read bytes"]),
     ],
     "level_text": "bounded model checking (reduced claim) of the real Handler.Handle tail and Handler.proxy with io.Copy / io.TeeReader executed from SSA in the engine's goroutine mode: prefetched-but-unread bytes plus the client's stream reach every peer exactly once and in order, upstream bytes reach the client in order, CloseWrite reaches each upstream only after the last client byte and the client only after every upstream finished, proxy returns (no deadlock), every upstream connection is closed",
     "level_note": "payloads of a few bytes in 1-3 chunks per direction, 1-2 peers, client and upstreams half-close after their last byte; cooperative schedule only (no pre-emption inside io.Copy), no abrupt closes, no MiB payloads, no kernel buffering; scripted conns stand for TCP/Unix/TLS half-close behaviour; not natively replayable",
@@ -320,6 +322,8 @@ CHECKS["C13"] = {
         H("c13.VH_listener", {"CONNS": 2, "L": 3}, {"CONNS": 3, "L": 3}, covers=["delivered and read", "consumed or rejected", "closed"], weight=3, **_envonly),
         H("c13.VH_listener", {"params": {"CONNS": 2, "L": 2}, "preempt": 1}, {"params": {"CONNS": 2, "L": 3}, "preempt": 2}, variant="preempt", covers=["delivered and read", "closed"], weight=5, **_envonly),
         H("c13.VH_listener_wrap", {"CONNS": 2, "L": 3}, {"CONNS": 2, "L": 4}, covers=["handler consumed the buffered bytes and wrapped", "delivered and read", "delivered after a handler consumed bytes"], weight=4, **_envonly),
+        # a handler that wraps the connection before reading (tee, metering wrappers): the stream continues once, in order
+        H("c01.VH_wrap_step", {}, {}, covers=["unread bytes at Wrap time", "read past the bytes buffered at Wrap time"]),
         H("c13.VH_close_pending", {"CONNS": 2}, {"CONNS": 3}, covers=["closed with pending connections"], **_envonly),
         H("c13.VH_close_pending", {"CONNS": 3, "GOMAXPROCS": 1}, {"CONNS": 3, "GOMAXPROCS": 2}, variant="small-queue", covers=["closed with pending connections"], **_envonly),
         H("c13.VH_close_pending", {"params": {"CONNS": 2}, "preempt": 1}, {"params": {"CONNS": 3}, "preempt": 2}, variant="preempt", covers=["closed with pending connections"], weight=2, **_envonly),
